@@ -171,8 +171,9 @@ func (c *Ctx) Func(spec string) *ssa.Function {
 }
 
 // splitSpec understands the go/types naming style:
-//   "pkg/rsl.GetEntry", "(*pkg/rsl.ReferenceEntry).Commit",
-//   "(pkg/gitstore.Storer).GetReference", and for types/objects "pkg/rsl.Ref".
+//
+//	"pkg/rsl.GetEntry", "(*pkg/rsl.ReferenceEntry).Commit",
+//	"(pkg/gitstore.Storer).GetReference", and for types/objects "pkg/rsl.Ref".
 func splitSpec(spec string) (pkg, recv, name string, ptr bool) {
 	if strings.HasPrefix(spec, "(") {
 		end := strings.Index(spec, ")")
